@@ -73,7 +73,7 @@ PROPS = {
     "C16": {"level": "exploration", "assumptions": SIM_ASSUME + ["the binary part observes a reload through jobs scheduled over HTTP; a reload request (SIGUSR1 / poll) is given 3 s to take effect"],
             "parts": [sim("TestC16"), rp("procs", "TestC16Binary", (3, 1), (40, 4), helpers=["cmd/vhelper", "pkg:github.com/Flowpack/prunner/cmd/prunner"])]},
     "C17": {"level": "exploration", "assumptions": PURE_ASSUME,
-            "parts": [rp("inputs", "TestC17Load", (300, 2), (5000, 8)), rp("inputs", "TestC17Corrupt", (600, 2), (10000, 8)), rp("inputs", "TestC17Equals", (5000, 2), (100000, 8)),
+            "parts": [rp("inputs", "TestC17Load", (300, 2), (5000, 8)), rp("inputs", "TestC17Corrupt", (600, 2), (10000, 8)), rp("inputs", "TestC17Equals", (5000, 2), (100000, 8)), rp("inputs", "TestC17Reload", (300, 2), (6000, 8)),
                       rp("procs", "TestC17Binary", (3, 1), (40, 4), helpers=["cmd/vhelper", "pkg:github.com/Flowpack/prunner/cmd/prunner"]),
                       {"pkg": "inputs", "fuzz": "FuzzC17Load", "thorough": {"fuzztime": "180s", "wall": 900}}]},
     "C18": {"level": "exploration", "assumptions": ["the harness wires the task runner exactly as app.appAction does (pipeline env as runner env, real FileOutputStore); a change to that closure in app/app.go is not seen", "real processes via cmd/vhelper; the environment of the test process stands for the prunner process"],
